@@ -391,6 +391,7 @@ type c11Env struct {
 	watchdog  time.Duration
 	baseBumps int
 	ncase     int
+	wantMiss  int
 	loose     bool // goroutine counting abandoned for the rest of the run
 	held      int  // deliveries parked at the gate when ingestion had finished, over all cases
 }
@@ -658,8 +659,17 @@ wait:
 		}
 		defer func() {
 			// belt and braces: the implementation's own number of successes tells how many deliveries to expect
+			// (skipped once it has expired 20 times in this run: then deliveries are really missing and every
+			// further wait would only make a failing run slow)
+			if e.wantMiss >= 20 {
+				return
+			}
 			deadline := time.Now().Add(150 * time.Millisecond)
-			for !want() && time.Now().Before(deadline) {
+			for !want() {
+				if !time.Now().Before(deadline) {
+					e.wantMiss++
+					break
+				}
 				time.Sleep(200 * time.Microsecond)
 			}
 		}()
